@@ -121,7 +121,7 @@ class GenModule(Elaboratable):
     # -- statements ---------------------------------------------------------------
     def build(self) -> TModule:
         # some modules are built from a trivial subclass of TModule (user code does that too)
-        m = MyTModule() if self.spec.get("subclass") else TModule()
+        m = self.top.tmodule_subclass() if self.spec.get("subclass") else TModule()
         self.top.tmodules.append(m)
         self.block(m, self.spec["block"])
         return m
@@ -272,6 +272,8 @@ class CoreTop(Elaboratable):
         self.bodies: dict[str, Body] = {}  # transaction name / defined method ref -> Body
         self.sites: dict[int, SiteRec] = {}
         self.tmodules: list = []  # every TModule object created for this design
+        # a design-local trivial subclass (as user code would write `class MyTModule(TModule): pass`)
+        self.tmodule_subclass = type("MyTModule", (MyTModule,), {})
         for iid, w in design["inputs"].items():
             self.inputs[iid] = Signal(w, name=iid)
         for g in design.get("groups", []):
